@@ -7,9 +7,11 @@ cd /repo || exit 2
 if [ -n "$(git status --porcelain --untracked-files=no)" ]; then echo "/repo not clean"; exit 2; fi
 git apply "$PATCH" || { echo "patch does not apply"; exit 2; }
 cd /verif
+cp -f "evidence/${PROP}.json" "run/evidence_${PROP}.bak" 2>/dev/null
 python3 check.py "$PROP" --tier "$TIER" > "run/mutant_${PROP}.log" 2>&1
 RC=$?
 git -C /repo checkout -- .
+[ -f "run/evidence_${PROP}.bak" ] && mv -f "run/evidence_${PROP}.bak" "evidence/${PROP}.json"
 grep -E "VIOLATION|KNOWN-FINDING|INFRASTRUCTURE|tier=" "run/mutant_${PROP}.log" | head -8
 echo "exit=$RC"
 exit $RC
